@@ -398,7 +398,10 @@ class C01(Campaign):
             if info["harness"]:
                 res.harness_error = info["text"]
             else:
-                res.foreign.append({k: info[k] for k in ("type", "where", "owner")} | {"phase": "chain"})
+                # these are ordinary simulations of exactly solvable systems with a well-behaved calculator: a chain that
+                # cannot be run produces no ensemble average at all
+                res.violations.append(Violation("C01", "chain_aborted", f"row={sc['row']}|type={info['type']}|where={info['where']}|proposal={sc['proposal']}",
+                                                f"driver {sc['driver']}, T={sc['params']['temperature']}:\n" + info["text"]))
             return res.pack()
         cls = sc.get("N", sc.get("lambda", len(sc["atoms"]["numbers"])))
         res.cover.add(f"{sc['row']}|{sc['proposal']}|{int(cls) if cls is not None else '-'}|veto={int(bool(sc.get('veto')))}")
